@@ -973,8 +973,8 @@ func verifC30DFSConfigs(thorough bool) []*verifC30Config {
 		}
 	}
 	if thorough {
-		// the (3,3) combinations for the two densest patterns on the empty list
-		for _, p := range pats[:2] {
+		// the (3,3) combination for the densest pattern on the empty list
+		for _, p := range pats[:1] {
 			add(&verifC30Config{Name: fmt.Sprintf("A/%s/pre=empty/h=3.3", p.name), Family: "A:2x1", Split: 4,
 				Actors: [][]verifC30Op{verifC30One(p.k0, 3), verifC30One(p.k1, 3)}})
 		}
@@ -1069,8 +1069,6 @@ func verifC30DFSConfigs(thorough bool) []*verifC30Config {
 		}
 		add(&verifC30Config{Name: "B/all-adjacent/pre=empty/h=2.1.1", Family: "B:3x1", Split: 3,
 			Actors: [][]verifC30Op{verifC30One(c1, 2), verifC30One(d1, 1), verifC30One(e1, 1)}})
-		add(&verifC30Config{Name: "B/all-equal/pre=empty/h=1.2.1", Family: "B:3x1", Split: 3,
-			Actors: [][]verifC30Op{verifC30One(d1, 1), verifC30One(d1, 2), verifC30One(d1, 1)}})
 	}
 	return out
 }
@@ -1448,7 +1446,7 @@ func TestVerifC30Stress(t *testing.T) {
 	r.Rule("case = one stress run: 8-32 free-running inserters over 10^4-10^5 distinct keys (quick tier: 3000-10^4) plus 5% duplicate attempts, three dealing patterns " +
 		"(shuffled, sorted round-robin = neighbours inserted at the same time, per-inserter ascending runs with Inserter), arena either ample or filling up near the end, " +
 		"2 free-running readers, seeded random yields at the four sites; distinct = (inserters, keys, pattern, arena mode); non-trivial = at least one CAS retry was observed")
-	n := vcommon.Scale(8, 400)
+	n := vcommon.Scale(8, 96)
 	type padded struct {
 		n atomic.Int64
 		_ [7]uint64
@@ -1466,7 +1464,8 @@ func TestVerifC30Stress(t *testing.T) {
 		nIns := 8 + rng.IntN(25)
 		nKeys := []int{10000, 3000, 3000, 10000}[ci%4]
 		if vcommon.Thorough() {
-			nKeys = 10000 + rng.IntN(90001)
+			f := rng.Float64()
+			nKeys = 10000 + int(f*f*90000) // 10^4..10^5, skewed towards the low end (cost under the race detector)
 		}
 		pattern := rng.IntN(3)
 		arenaFull := rng.IntN(2) == 0
